@@ -490,6 +490,30 @@ func (x *X) confirmAndRecord(v *Violation, c *Chooser, body func(c *Chooser)) {
 				x.writeViolation(v)
 				return
 			}
+			// Neither.  Last possibility: the code under test is itself nondeterministic (output depending on map
+			// iteration order, on goroutine timing, on addresses).  Repeat the same choices 30 more times: if the same
+			// clause fails again at least once, the property is violated with that frequency and it is reported as such
+			// (the replay file then reproduces it only with that probability).
+			again := 0
+			const tries = 30
+			for k := 0; k < tries; k++ {
+				rc := &Chooser{path: append([]int{}, path...), lim: make([]int, len(path)), tracing: true, fixed: true}
+				x.quiet = true
+				v3, _ := x.runOnce(rc, body)
+				x.quiet = q
+				if v3 != nil && v3.Clause == v.Clause {
+					again++
+					trace = rc.trace
+				}
+			}
+			if again > 0 {
+				v.Path = path
+				v.Trace = trace
+				v.Tags = append(v.Tags, "nondeterministic_under_identical_choices")
+				v.Detail = fmt.Sprintf("[NOT deterministic: the same choices failed this clause in %d of %d further repetitions in this process] ", again, tries) + v.Detail
+				x.writeViolation(v)
+				return
+			}
 			fmt.Fprintf(os.Stderr, "harness: NONDETERMINISM: %s path=%v first=%s: %s replay=%s\n", x.Prop, path, v.Clause, v.Detail, got)
 			os.Exit(2)
 		}
